@@ -127,7 +127,8 @@ Fixpoint quiesce_i (fuel : nat) (cand : list move) (st : sst) (alpha beta depth 
        | m :: r =>
            do stp <- push st (rm m);
            do c <- quiesce_i f cand stp (- beta) (- alpha) (depth + 1);
-           let st' := pop (ist c) in
+           (* the stop channel is polled after every capture searched (fix 67f3a87), then the interruption / deadline test *)
+           let st' := poll (pop (ist c)) in
            let s := - iv c in
            let '(up, st'') := if st_intr st' then (true, st') else time_up st' in
            if up then Ok (ir alpha line st'')
